@@ -761,7 +761,8 @@ def unit_stage(res, rng, n, model):
                 else:
                     new = hold.get(root, root)
                 want[b].add((("*" if star else "") + new + rest, new))
-                origin.setdefault((b, ("*" if star else "") + new + rest), []).append(rest[:1] in ("[", "("))
+                # keyed by the (name, base) pair: two declared spellings may spell the same expected NAME with different bases
+                origin.setdefault((b, ("*" if star else "") + new + rest, new), []).append(rest[:1] in ("[", "("))
             want[b] = sorted(map(list, want[b]))
         # the Lean spec is handed the model's swaps; it must agree with CPython wherever the swaps are CPython's binding
         spec = canon(mo["spec"]["subst"]) if mo.get("spec") else None
@@ -773,7 +774,7 @@ def unit_stage(res, rng, n, model):
             continue
         bad = next(b for b in BUCKETS if got[b] != want[b])
         # WHICH declared spellings did not arrive: all of them with `[]` / `()` directly on the root variable?
-        missing = [(b, x[0]) for b in BUCKETS for x in want[b] if x not in got[b]]
+        missing = [(b, x[0], x[1]) for b in BUCKETS for x in want[b] if x not in got[b]]
         only_brackets = bool(missing) and all(all(origin[m]) for m in missing)
         if only_brackets:
             sig_ = "declared-substitution:declared-name-with-subscript-or-call-on-the-root-not-substituted"
